@@ -2,6 +2,7 @@ import ScyllaVerif.Model.Util
 import ScyllaVerif.Model.StreamMap
 import ScyllaVerif.Model.Conn
 import ScyllaVerif.Model.FrameStream
+import ScyllaVerif.Model.ConnIO
 /-! Line-protocol driver for C02 (and the connection half of C10).
 
 * `map <op>;<op>;…`   — hook level: `ResponseHandlerMap` operations
@@ -10,12 +11,17 @@ import ScyllaVerif.Model.FrameStream
 * `conn <wc> <op>;…`  — the real router over an in-memory stream, driven by a deterministic schedule; the
   driver turns each operation into `Conn.Ev`s (settling = `writerTake`/`orphanerStep` until idle).
     `s` submit, `S` submit and drop before the router runs, `c<k>` drop request k's future, `p<k>` poll it,
+    `C<k>` drop it WITHOUT letting the router run (the orphan notice races the next operation),
     `r<j>` server answers the j-th oldest unanswered frame it has read, `u<stream>` frame on a stream the
     server does not owe, `b<hex>` raw bytes from the server, `x` server closes, `g`/`G` close/open a gate on
-    the client's writes (the writer blocks in `flush`, later tasks stay in the submit channel).
+    the client's writes (the writer blocks in `flush`, later tasks stay in the submit channel; behind the gate
+    the 1024-slot submit channel fills up: further callers park — `submitFull`, `grant`, `push`),
+    `w` the client's writes fail from now on (`WriteError`), `t<ms>` virtual time (keep-alive; the orphaner's
+    1 s tick: more than 1024 stream ids orphaned for ≥ 1 s → `TooManyOrphanedStreamIds`).
+  The reader (`ConnIO.reader`) and the keepaliver (`ConnIO.kaTurn`) are the model's.
 -/
 namespace ScyllaVerif.Drive.C02
-open ScyllaVerif.Util ScyllaVerif.StreamMap ScyllaVerif.Conn ScyllaVerif.FrameStream
+open ScyllaVerif.Util ScyllaVerif.StreamMap ScyllaVerif.Conn ScyllaVerif.FrameStream ScyllaVerif.ConnIO
 
 /-- Split an operation into its letter and its argument. -/
 def splitOp (op : String) : Option (Char × String) :=
@@ -124,6 +130,9 @@ def callerStr : Option CallerSt → String
   | some (.done o) => outcomeStr o
   | some .abandoned => "cancelled"
 
+/-- Capacity of the submit channel (`mpsc::channel(1024)` in `Connection::new` and in the hook). -/
+def chanCap : Nat := 1024
+
 structure ConnSt where
   c : Conn
   gateClosed : Bool := false
@@ -133,13 +142,30 @@ structure ConnSt where
   hiddenLog : List Nat := []    -- stream ids of the buffered frames (reversed)
   inbuf : List UInt8 := []      -- bytes the reader has received that do not yet form a whole frame
   eof : Bool := false
+  writeFail : Bool := false     -- the client's writes fail
   users : List Nat := []        -- request ids of the test's own requests, newest first
   bodies : List (Nat × String) := []  -- request id ↦ tag of the body of the raw (`b`) frame that answered it
   -- the keepaliver (`keepalive_interval`, `keepalive_timeout` in ms), under a virtual clock
   ka : Option (Nat × Nat) := none
   clock : Nat := 0
-  kaNext : Nat := 0             -- when `interval.tick()` completes next
-  kaPending : Option (Nat × Nat) := none   -- (request id, deadline) of the keep-alive request in flight
+  kaNext : Nat := 0
+  kaPending : Option (Nat × Nat) := none
+  orphTimes : List (Nat × Nat) := []   -- orphaned stream id ↦ when it was orphaned (`OrphanageTracker`)
+
+/-- Keep the orphaning times in step with the model's orphan set (a newly orphaned id gets the current time). -/
+def syncOrph (st : ConnSt) : ConnSt :=
+  { st with orphTimes := st.c.map.orphans.map fun s =>
+      match st.orphTimes.find? (fun p => p.1 == s) with
+      | some p => p
+      | none => (s, st.clock) }
+
+/-- Capacity freed by the writer goes to the parked callers, oldest first. -/
+def grantN : Nat → Conn → Conn
+  | 0, c => c
+  | n + 1, c =>
+    match c.sending with
+    | [] => c
+    | r :: _ => grantN n (step c (.grant r))
 
 /-- `n` × `writerTake`, logging the stream ids written. -/
 def takeN : Nat → ConnSt → ConnSt
@@ -149,7 +175,8 @@ def takeN : Nat → ConnSt → ConnSt
     let st' := if c'.server.length > st.c.server.length then
         match c'.server.getLast? with
         | some (s, _) =>
-          if st.gateClosed then { st with c := c', hiddenLog := s :: st.hiddenLog, hidden := st.hidden + 1 }
+          if st.writeFail then { st with c := c' }
+          else if st.gateClosed then { st with c := c', hiddenLog := s :: st.hiddenLog, hidden := st.hidden + 1 }
           else { st with c := c', srv := s :: st.srv }
         | none => { st with c := c' }
       else { st with c := c' }
@@ -159,38 +186,24 @@ def orphanN : Nat → Conn → Conn
   | 0, c => c
   | n + 1, c => orphanN n (step c .orphanerStep)
 
-/-- One turn of the keepaliver task (`keepaliver`, 1788-1865): its request is an ordinary `send_request`. -/
-def kaTurn (st : ConnSt) : ConnSt :=
-  match st.ka with
-  | none => st
-  | some (interval, timeout) =>
-    if st.c.broken then st else
-    match st.kaPending with
-    | some (r, deadline) =>
-      match getCaller st.c.callers r with
-      | some (.delivered (.frame _)) => { st with c := step st.c (.recv r), kaPending := none }
-      | some (.delivered (.err _)) =>
-        { st with c := step (step st.c (.recv r)) (.break_ .keepaliveRequestError), kaPending := none }
-      | _ =>
-        if st.clock ≥ deadline then
-          -- `tokio::time::timeout` fires: the request future is dropped, the router ends
-          { st with c := step (step st.c (.cancel r)) (.break_ .keepaliveTimeout), kaPending := none }
-        else st
-    | none =>
-      if st.clock ≥ st.kaNext then
-        let r := st.c.nextReq
-        -- `MissedTickBehavior::Delay`: a tick more than 5 ms late re-bases the schedule
-        let next := if st.clock > st.kaNext + 5 then st.clock + interval else st.kaNext + interval
-        { st with c := step st.c .submit, kaPending := some (r, st.clock + timeout), kaNext := next }
-      else st
+def toKa (st : ConnSt) (interval timeout : Nat) : KaSt :=
+  { c := st.c, interval := interval, timeout := timeout, clock := st.clock, next := st.kaNext, pending := st.kaPending }
 
+/-- One turn of the router task: keepaliver, writer (one batch), orphaner. -/
 def routerTurn (st : ConnSt) : ConnSt :=
-  let st := kaTurn st
+  let st := match st.ka with
+    | none => st
+    | some (i, t) =>
+      let k := kaTurn (toKa st i t)
+      { st with c := k.c, kaNext := k.next, kaPending := k.pending }
   let st1 :=
-    if st.blocked || st.c.queue.isEmpty then st else
-    let st' := takeN st.c.queue.length st
-    if st.gateClosed then { st' with blocked := true } else st'
-  { st1 with c := orphanN st1.c.notices.length st1.c }
+    if st.c.broken || st.blocked || st.c.queue.isEmpty then st else
+    let n := st.c.queue.length
+    let st' := takeN n st
+    let st' := { st' with c := grantN n st'.c }
+    if st.writeFail then { st' with c := step st'.c (.break_ .writeError) }
+    else if st.gateClosed then { st' with blocked := true } else st'
+  syncOrph { st1 with c := orphanN st1.c.notices.length st1.c }
 
 /-- Run the router until it is idle. -/
 def settle (st : ConnSt) : ConnSt := routerTurn (routerTurn (routerTurn st))
@@ -207,29 +220,25 @@ def tagStr (body : List UInt8) : String :=
     if v == 18446744073709551615 then "unsolicited" else toString v
   else "?" ++ toHex body
 
-/-- The reader consumes whole frames from `inbuf` (after `bytes` arrived). -/
-def readerLoop : Nat → ConnSt → ConnSt
-  | 0, st => st
-  | fuel + 1, st =>
-    if st.c.broken then st else
-    match readFrame st.inbuf with
-    | .frame f rest =>
-      let st := { st with inbuf := rest }
-      if f.stream < 0 then readerLoop fuel st     -- events (no event sender) and other negative streams: ignored
-      else
-        let s := f.stream.toNat
-        match visibleIdx st s with
-        | some i =>
-          let bodies := match st.c.server[i]? with
-            | some (_, r) => (r, tagStr f.body) :: st.bodies
-            | none => st.bodies
-          readerLoop fuel { st with c := step st.c (.respond i), bodies := bodies }
-        | none => readerLoop fuel { st with c := step st.c (.unsolicited s) }
-    | .bad _ => { st with c := step st.c (.break_ .frameHeaderParseError) }
-    | .cutInHeader _ | .cutInBody _ _ =>
-      if st.eof then { st with c := step st.c (.break_ .frameHeaderParseError) } else st
-    | .empty =>
-      if st.eof then { st with c := step st.c (.break_ .frameHeaderParseError) } else st
+/-- Printing only: which request each whole raw frame answers (first frame per stream). -/
+def noteBodiesGo (server : List (Nat × Nat)) : List Frame → List (Nat × String) → List Nat → List (Nat × String)
+  | [], acc, _ => acc
+  | f :: rest, acc, seen =>
+    if f.stream < 0 then noteBodiesGo server rest acc seen else
+    let s := f.stream.toNat
+    if seen.contains s then noteBodiesGo server rest acc seen else
+    match server.find? (fun p => p.1 == s) with
+    | some (_, r) => noteBodiesGo server rest ((r, tagStr f.body) :: acc) (s :: seen)
+    | none => noteBodiesGo server rest acc (s :: seen)
+
+def noteBodies (st : ConnSt) : ConnSt :=
+  { st with bodies := noteBodiesGo st.c.server (readFrames st.inbuf).1 st.bodies [] }
+
+/-- Bytes have arrived (or the peer has closed): the model's reader runs. -/
+def runReader (st : ConnSt) : ConnSt :=
+  let st := noteBodies st
+  let (c', rest) := reader st.c st.inbuf st.eof
+  syncOrph { st with c := c', inbuf := rest }
 
 /-- The gate opens: the blocked `flush` completes (unless the router is gone), then the writer goes on. -/
 def openGate (st : ConnSt) : ConnSt :=
@@ -238,27 +247,54 @@ def openGate (st : ConnSt) : ConnSt :=
 
 def userReq (st : ConnSt) (k : Nat) : Option Nat := st.users.reverse[k]?
 
+/-- A caller enters `send_request`: there is room in the submit channel, or it parks. -/
+def submitEv (st : ConnSt) : Ev :=
+  if st.c.queue.length + st.c.permits.length ≥ chanCap then .submitFull else .submit
+
+/-- Dropping request `r`'s future; a permit it held goes to the next parked caller. -/
+def cancelReq (st : ConnSt) (r : Nat) : ConnSt :=
+  let had := st.c.permits.contains r
+  let c' := step st.c (.cancel r)
+  { st with c := if had then grantN 1 c' else c' }
+
+/-- Polling request `r`'s future: a caller that was handed capacity pushes its task, otherwise it looks into its
+oneshot. -/
+def pollReq (st : ConnSt) (r : Nat) : ConnSt :=
+  if st.c.permits.contains r then { st with c := step st.c (.push r) }
+  else { st with c := step st.c (.recv r) }
+
+/-- The orphaner's 1 s tick (`old_orphans_count() > OLD_ORPHAN_COUNT_THRESHOLD`). -/
+def orphanTick (st : ConnSt) (oldClock : Nat) : ConnSt :=
+  if st.clock / 1000 > oldClock / 1000 && st.clock ≥ 1000 then
+    let old := st.orphTimes.filter (fun p => p.2 + 1000 ≤ st.clock)
+    if old.length > 1024 then { st with c := step st.c (.break_ .tooManyOrphanedStreamIds) } else st
+  else st
+
 def connOp (st : ConnSt) (op : String) : Option ConnSt :=
   match splitOp op with
   | none => none
   | some (c, arg) =>
     let noArg (r : ConnSt) : Option ConnSt := if arg == "" then some r else none
-    if c == 's' then noArg (settle { st with c := step st.c .submit, users := st.c.nextReq :: st.users })
+    if c == 's' then noArg (settle { st with c := step st.c (submitEv st), users := st.c.nextReq :: st.users })
     else if c == 'S' then
       let r := st.c.nextReq
-      noArg (settle { st with c := step (step st.c .submit) (.cancel r), users := r :: st.users })
+      let st1 := { st with c := step st.c (submitEv st), users := r :: st.users }
+      noArg (settle (cancelReq st1 r))
     else if c == 'g' then noArg { st with gateClosed := true }
     else if c == 'G' then noArg (openGate st)
+    else if c == 'w' then
+      let st := { st with writeFail := true }
+      -- a writer waiting in `flush` is woken and fails
+      noArg (settle (if st.blocked then { st with c := step st.c (.break_ .writeError), blocked := false } else st))
     else if c == 'x' then
       if st.eof then noArg st else
-      noArg (settle (readerLoop 1 { st with eof := true }))
+      noArg (settle (runReader { st with eof := true }))
     else if c == 'b' then
       match parseHex arg with
       | none => none
       | some bytes =>
         if st.eof then some st else
-        let st := { st with inbuf := st.inbuf ++ bytes }
-        some (settle (readerLoop (st.inbuf.length + 1) st))
+        some (settle (runReader { st with inbuf := st.inbuf ++ bytes }))
     else if c == 'u' then
       match arg.toInt? with
       | none => none
@@ -268,30 +304,40 @@ def connOp (st : ConnSt) (op : String) : Option ConnSt :=
         let s := s.toNat
         if st.eof || !st.inbuf.isEmpty then some st else
         if (visibleIdx st s).isSome then some st else
-        if st.gateClosed && s < 1000 then some st else
-        some (settle { st with c := step st.c (.unsolicited s) })
+        if st.gateClosed && s < 2000 then some st else
+        some (settle (syncOrph { st with c := step st.c (.unsolicited s) }))
     else
     match arg.toNat? with
     | none => none
     | some n =>
       if c == 'c' then
         match userReq st n with
-        | some r => some (settle { st with c := step st.c (.cancel r) })
+        | some r => some (settle (cancelReq st r))
+        | none => some st
+      else if c == 'C' then
+        match userReq st n with
+        | some r => some (cancelReq st r)
         | none => some st
       else if c == 'p' then
         match userReq st n with
-        | some r => some (settle { st with c := step st.c (.recv r) })
+        | some r => some (settle (pollReq st r))
         | none => some st
       else if c == 'r' then
         if st.eof || !st.inbuf.isEmpty then some st else
-        if n < st.c.server.length - st.hidden then some (settle { st with c := step st.c (.respond n) })
+        if n < st.c.server.length - st.hidden then
+          some (settle (syncOrph { st with c := step st.c (.respond n) }))
         else some st
-      else if c == 't' then some (settle { st with clock := st.clock + n })
+      else if c == 't' then
+        let st1 := { st with clock := st.clock + n }
+        some (settle (orphanTick st1 st.clock))
       else none
 
 def recvAll : List Nat → Conn → Conn
   | [], c => c
   | r :: rest, c => recvAll rest (step c (.recv r))
+
+/-- Every request future is polled once (oldest first). -/
+def pollAll (st : ConnSt) : ConnSt := st.users.reverse.foldl pollReq st
 
 def userOutcome (st : ConnSt) : Outcome → String
   | .frame f =>
@@ -313,6 +359,10 @@ def userCallerStr (st : ConnSt) : Option CallerSt → String
 
 def connLine (st : ConnSt) : String :=
   let st := if st.gateClosed then openGate st else settle st
+  -- the end of the schedule: (poll every future, let the router run) × 3, poll again
+  let st := settle (pollAll st)
+  let st := settle (pollAll st)
+  let st := settle (pollAll st)
   let c := recvAll st.users st.c
   let users := st.users.reverse
   let callers := (List.range users.length).map fun k =>
